@@ -21,14 +21,15 @@ def mk_spec(style, idents, name):
     vs, seen = [], set()
     for ident in idents:
         c = casing.convert(ident, style)
-        if c in seen or c == "" or c == "explicit_Name" or c == "Tv":
+        if c in seen or c == "" or c in ("explicit_Name", "Tv", "OwnName"):
             continue                      # overlapping spellings are outside the domain
         seen.add(c)
         vs.append(U(ident))
     # siblings with explicit spellings must never be re-cased
     vs.append(U("ExplicitSer", serialize=["explicit_Name"]))
+    vs.append(U("OwnName", serialize=["OwnName"]))
     vs.append(U("ExplicitTs", to_string="Tv", fields=[Field("u8")]))
-    return EnumSpec(name, vs, serialize_all=style, note="serialize_all=%s over %s" % (style, ",".join(v.ident for v in vs[:-2])))
+    return EnumSpec(name, vs, serialize_all=style, note="serialize_all=%s over %s" % (style, ",".join(v.ident for v in vs[:-3])))
 
 
 def program(spec: EnumSpec, pname, tier, cap):
